@@ -236,7 +236,7 @@ func (g *seqGen) remove(j int) { g.out = append(g.out[:j:j], g.out[j+1:]...) }
 
 func (g *seqGen) script(n int) {
 	rtypes := []int{0x0001, 0x0104, 0x0805, 0x1205, 0x1206}
-	cmds := []int{0x8103, 0x8104, 0x8801, 0x9101, 0x9102, 0x9205, 0x9206}
+	cmds := []int{0x8103, 0x8104, 0x8801, 0x9101, 0x9102, 0x9205, 0x9206, 0x8300, 0x8105, 0x8202} // the last three: no handler entry
 	answered := []int{}
 	for step := 0; step < n && !g.closed; step++ {
 		has9003 := false
@@ -449,7 +449,7 @@ func replayBatch(par int, jobs []string) string {
 }
 
 func c12(c *Ctx) {
-	c.Rule = "sequential scripts (wseq): random scripts of heartbeats, commands (7 command ids + 0x9003), responses of the 5 echoing types in any order, duplicates, unknown serials, unparsable bodies, 0x1003, timeouts, disconnect, executed step by step on a live server and compared token by token with the model; concurrent scenarios (wexp): 1..8 callers with timeouts 5-600 ms, none, and 0 = the 3 s default, against a scripted terminal (answers delayed/late/twice/unknown/unparsable/never/in 2-4 sub-packages (long 0x1205 0x0805 0x0104 and short bodies cut up, a heartbeat in between and after), 5-8 answers in one TCP segment, heartbeats and location reports in between, serial wrap at 65535, 0x8003 frames and a stalled transfer through reissuePackChan, close/RST/garbage; some batches with user callbacks that sleep 1-15 ms; the witnesses of the findings serial-reuse (both variants) and blocked-write, each in a server of its own), the recorded history must be explained by a schedule of the model and pass the direct oracle; the server runs in child processes (a crash is an observation); a case is non-trivial when it contains at least one command written to the terminal; distinct = distinct request lines"
+	c.Rule = "sequential scripts (wseq): random scripts of heartbeats, commands (7 command ids + 0x9003 + 3 ids without an entry in the handler table), responses of the 5 echoing types in any order, duplicates, unknown serials, unparsable bodies, 0x1003, timeouts, disconnect, executed step by step on a live server and compared token by token with the model; concurrent scenarios (wexp): 1..8 callers (one command in five, and every command of kind nohandler, has no entry in the handler table; kind emptykey-close: a terminal whose KeyFunc result is the empty key) with timeouts 5-600 ms, none, and 0 = the 3 s default, against a scripted terminal (answers delayed/late/twice/unknown/unparsable/never/in 2-4 sub-packages (long 0x1205 0x0805 0x0104 and short bodies cut up, a heartbeat in between and after), 5-8 answers in one TCP segment, heartbeats and location reports in between, serial wrap at 65535, 0x8003 frames and a stalled transfer through reissuePackChan, close/RST/garbage; some batches with user callbacks that sleep 1-15 ms; the witnesses of the findings serial-reuse (both variants) and blocked-write, each in a server of its own), the recorded history must be explained by a schedule of the model and pass the direct oracle; the server runs in child processes (a crash is an observation); a case is non-trivial when it contains at least one command written to the terminal; distinct = distinct request lines"
 	// ---- jobs
 	nseq := 300
 	if !c.Quick() {
@@ -467,7 +467,7 @@ func c12(c *Ctx) {
 		g.script(6 + g.rng.Intn(14))
 		jobs = append(jobs, jobT{line: "op wseq 0 " + strings.Join(g.toks, " "), what: g.what})
 	}
-	kinds := []string{"garbage-close", "reissue", "frag", "frag", "burst", "burst", "order", "late", "dup", "unknown", "bad", "never", "mixed", "mixed", "attr", "notmo", "prejoin",
+	kinds := []string{"nohandler", "nohandler", "garbage-close", "reissue", "frag", "frag", "burst", "burst", "order", "late", "dup", "unknown", "bad", "never", "mixed", "mixed", "attr", "notmo", "prejoin",
 		"close-outstanding", "close-afterresp", "close-queued"}
 	per := 60
 	if !c.Quick() {
@@ -494,6 +494,10 @@ func c12(c *Ctx) {
 	for i := 0; i < ndef; i++ {
 		seed := c.Rng.Int63n(90000000)
 		jobs = append(jobs, jobT{line: fmt.Sprintf("scn default0 %d", seed), kind: "default0", seed: seed})
+	}
+	for i := 0; i < 2*ndef; i++ { // the key "": one owner at a time, so these run one after the other inside their child
+		seed := c.Rng.Int63n(90000000)
+		jobs = append(jobs, jobT{line: fmt.Sprintf("scn emptykey-close %d", seed), kind: "emptykey-close", seed: seed})
 	}
 	for i := 0; i < ndef/2; i++ { // a transfer that stalls for 5 s: generated re-request through reissuePackChan
 		seed := c.Rng.Int63n(90000000)
